@@ -102,7 +102,7 @@ def resets (s : S) (x : Nat) : Bool := (s.chain x).all (fun y => !s.unlinked y)
 
 def answer (s : S) (a : Ans) : S := { s with answered := (s.nextReq, a) :: s.answered, nextReq := s.nextReq + 1 }
 
-/-- `Use(0)`: answered nil before anything is looked at (logged as a grant of 0) -/
+/-- `Use(0)` on an open limiter: answered nil at once (logged as a grant of 0) -/
 def doUseZero (s : S) (l : Nat) : S :=
   { s with glog := ⟨s.nextReq, l, s.chain l, 0, s.ticks⟩ :: s.glog,
            answered := (s.nextReq, .ok) :: s.answered, nextReq := s.nextReq + 1 }
@@ -139,12 +139,13 @@ def doSetCap (s : S) (l c : Nat) : S := { s with cap := upd s.cap l c }
 /-! ### the transition relation -/
 
 inductive Step : S → S → Prop
-  -- `Use(amount)`: the two answers given before the lock is taken …
+  -- `Use(amount)`: the answer given before the lock is taken …
   | useNeg (s : S) : Step s (answer s .errNeg)
-  | useZero (s : S) (l : Nat) (hl : l < s.n) : Step s (doUseZero s l)
-  -- … and the four outcomes under the lock
+  -- … and the five outcomes under the lock (closed is checked first, for every non-negative amount)
   | useClosed (s : S) (l : Nat) (hl : l < s.n) (h0 : s.lockHeld = false) (h : s.closed l = true) :
       Step s (answer s .errClosed)
+  | useZero (s : S) (l : Nat) (hl : l < s.n) (h0 : s.lockHeld = false) (h1 : s.closed l = false) :
+      Step s (doUseZero s l)
   | useTooBig (s : S) (l amt : Nat) (hl : l < s.n) (h0 : s.lockHeld = false) (h1 : s.closed l = false)
       (h2 : amt > s.cap l) : Step s (answer s .errCap)
   | useGrant (s : S) (l amt : Nat) (hl : l < s.n) (ha : 0 < amt) (h0 : s.lockHeld = false) (h1 : s.closed l = false)
@@ -195,9 +196,9 @@ def exec (s : S) : Op → S
   | .use l amt =>
     if l < s.n then
       if amt < 0 then answer s .errNeg
-      else if amt = 0 then doUseZero s l
       else if s.lockHeld then s
       else if s.closed l then answer s .errClosed
+      else if amt = 0 then doUseZero s l
       else if amt.toNat > s.cap l then answer s .errCap
       else if fits s.cap s.used (s.chain l) amt.toNat then doUseGrant s l amt.toNat
       else doUseWait s l amt.toNat
@@ -221,18 +222,19 @@ theorem exec_steps (s : S) (op : Op) (h : ∀ l c, op ≠ .setCap l c) : Steps s
     · rename_i hl
       split
       · exact .tail _ _ _ (.refl _) (.useNeg s)
-      · split
-        · exact .tail _ _ _ (.refl _) (.useZero s l hl)
-        · rename_i hn hz
-          have hpos : 0 < amt.toNat := by omega
+      · rename_i hn
+        split
+        · exact .refl _
+        · rename_i hlk
+          have hlk : s.lockHeld = false := by simpa using hlk
           split
-          · exact .refl _
-          · rename_i hlk
-            have hlk : s.lockHeld = false := by simpa using hlk
+          · rename_i hc; exact .tail _ _ _ (.refl _) (.useClosed s l hl hlk hc)
+          · rename_i hc
+            have hc : s.closed l = false := by simpa using hc
             split
-            · rename_i hc; exact .tail _ _ _ (.refl _) (.useClosed s l hl hlk hc)
-            · rename_i hc
-              have hc : s.closed l = false := by simpa using hc
+            · exact .tail _ _ _ (.refl _) (.useZero s l hl hlk hc)
+            · rename_i hz
+              have hpos : 0 < amt.toNat := by omega
               split
               · rename_i hb; exact .tail _ _ _ (.refl _) (.useTooBig s l _ hl hlk hc hb)
               · rename_i hb
